@@ -34,7 +34,11 @@ def make_acceptor(ae, max_pdu_length=None):
     cls.handle = lambda self: None
     try:
         with stubs.patched_dul():
-            acc = cls(FakeRequest(), ('peer', 0), ae, ae.max_pdu_length if max_pdu_length is None else max_pdu_length)
+            if max_pdu_length is None and getattr(ae, 'RequestHandlerClass', None) is not None:
+                # the way socketserver's finish_request() creates it: through the entity's handler factory
+                acc = ae.RequestHandlerClass(FakeRequest(), ('peer', 0), ae)
+            else:
+                acc = cls(FakeRequest(), ('peer', 0), ae, ae.max_pdu_length if max_pdu_length is None else max_pdu_length)
     finally:
         cls.handle = orig
     return acc
